@@ -18,7 +18,7 @@ from typing import Any, Dict, List, Tuple
 from ..core import Ctx, Failure
 from ..leanbridge import Driver
 
-THEOREMS_ALL = [
+THEOREMS = [
     "TDV.Incr.flatten_keysNodup",
     "TDV.Incr.lookup_flatten",
     "TDV.Incr.unflatten_flatten",
@@ -26,7 +26,6 @@ THEOREMS_ALL = [
     "TDV.Incr.lossless",
     "TDV.Incr.lossless_state",
 ]
-THEOREMS = []  # TEMP until proofs land
 LEAN_MODULES = ["TorchDataVerif.Props.C07"]
 RULE = ("state histories are generated from one PRNG: nested dicts (depth<=3) with int/str/list/None/{}/tensor leaves; "
         "steps add/delete/replace keys, turn leaves into dicts and back, mutate previously reported lists/tensors in place, "
